@@ -667,6 +667,22 @@ impl Wallet {
         (inputs, outputs)
     }
 
+    /// gives back slips which generate_slips had selected for a transaction that is not built after all
+    pub fn release_slips(&mut self, inputs: &[Slip]) {
+        for input in inputs {
+            if input.amount == 0 {
+                continue;
+            }
+            let key = input.get_utxoset_key();
+            if let Some(slip) = self.slips.get_mut(&key) {
+                if slip.spent && self.unspent_slips.insert(key) {
+                    slip.spent = false;
+                    self.available_balance += slip.amount;
+                }
+            }
+        }
+    }
+
     pub fn sign(&self, message_bytes: &[u8]) -> SaitoSignature {
         sign(message_bytes, &self.private_key)
     }
